@@ -93,6 +93,8 @@ Inductive mgr :=
   | MStack (cbs : list cb)         (* ExitStack / AsyncExitStack and its _exit_callbacks *)
 with frm := Frm (code : nat) (ws : list wth) (t : tail)
 with tail := TStop | TDeleg (f : frm) | TExit (w : wth)
+          | TExitS (w : wth) (cur : mgr)   (* w is an exit stack in the middle of its __exit__: its callbacks are
+                                              the ones still registered; cur is the one just popped and running *)
 with wth := Wth (oid : nat) (async named : bool) (m : mgr)
 with cb := Cb (k : regkind) (falsy exitname : bool)
               (a : avec)           (* attribute vector OBSERVED on the real callback *)
@@ -167,6 +169,10 @@ with series (fuel : nat) (f : frm) : list fout :=
           FOut code (cs ++ [match w with Wth _ _ named _ =>
                               fill n true (if named then RName else RUnderscore) [] KTop w end])
           :: match w with Wth _ _ _ (MGen g) => series n g | _ => [] end
+      | TExitS w cur =>
+          FOut code (cs ++ [match w with Wth _ _ named _ =>
+                              fill n true (if named then RName else RUnderscore) [] KTop w end])
+          :: match cur with MGen g => series n g | _ => [] end
       end
     end
   end.
@@ -245,6 +251,7 @@ with avec_ok_frm (fuel : nat) (f : frm) : bool :=
       | TStop => true
       | TDeleg g => avec_ok_frm n g
       | TExit (Wth _ _ _ m) => avec_ok_mgr n m
+      | TExitS (Wth _ _ _ m) cur => avec_ok_mgr n m && avec_ok_mgr n cur
       end
     end
   end.
@@ -264,6 +271,6 @@ Definition nontrivial (c : es_case) : bool :=
   match es_root c with
   | Frm _ ws t =>
       existsb (fun w => match w with Wth _ _ _ (MStack (_ :: _)) | Wth _ _ _ (MGen _) => true | _ => false end) ws
-      || match t with TExit _ => true | _ => false end
+      || match t with TExit _ | TExitS _ _ => true | _ => false end
   end.
 Definition count_nontrivial (cs : list es_case) : nat := count_true (map nontrivial cs).
